@@ -133,6 +133,35 @@ theorem c19_roundtrip_fund (m k : Nat) (hk : k ≤ 9) :
     ∃ m', parseDecimal (nundToFundStr (fundToNundNat m k)) = some (m', 9) ∧ m' * 10 ^ k = m * 10 ^ 9 := by
   exact ⟨fundToNundNat m k, c19_nund_to_fund_exact _, c19_fund_to_nund_exact m k hk⟩
 
+/-- **the command's own strings, FUND → nund**: whatever numeral the command accepts (`parseDecimal`) with at most nine
+fractional digits, the printed nund amount is exactly FUND × 10⁹ (no rounding: `v · 10ᵏ = m · 10⁹` over ℕ) -/
+theorem c19_convert_fund_exact (s : String) (m k : Nat) (hp : parseDecimal s = some (m, k)) (hk : k ≤ 9) :
+    ∃ v, convert s "fund" "nund" = some (showNat v ++ "nund") ∧ v * 10 ^ k = m * 10 ^ 9 := by
+  refine ⟨fundToNundNat m k, ?_, c19_fund_to_nund_exact m k hk⟩
+  simp [convert, hp]
+
+/-- **there and back at the level of the printed strings, nund first**: `convert` applied to the printed nund amount gives the
+nine-decimal FUND numeral, and `convert` applied to that numeral prints the original nund amount again -/
+theorem c19_convert_roundtrip_nund (n : Nat) :
+    convert (showNat n) "nund" "fund" = some (nundToFundStr n ++ "fund") ∧
+    convert (nundToFundStr n) "fund" "nund" = some (showNat n ++ "nund") := by
+  constructor
+  · simp [convert, c19_show_parse]
+  · simp [convert, c19_nund_to_fund_exact, fundToNundNat]
+
+/-- **there and back at the level of the printed strings, FUND first**: an accepted FUND numeral with at most nine fractional
+digits goes to a nund amount `v`, whose printed form goes back to a nine-decimal FUND numeral of the same value -/
+theorem c19_convert_roundtrip_fund (s : String) (m k : Nat) (hp : parseDecimal s = some (m, k)) (hk : k ≤ 9) :
+    ∃ v m', convert s "fund" "nund" = some (showNat v ++ "nund") ∧
+      convert (showNat v) "nund" "fund" = some (nundToFundStr v ++ "fund") ∧
+      parseDecimal (nundToFundStr v) = some (m', 9) ∧ m' * 10 ^ k = m * 10 ^ 9 := by
+  obtain ⟨v, hv, hval⟩ := c19_convert_fund_exact s m k hp hk
+  exact ⟨v, v, hv, (c19_convert_roundtrip_nund v).1, c19_nund_to_fund_exact v, hval⟩
+
+-- the premises are met by ordinary inputs
+example : parseDecimal "1.5" = some (15, 1) ∧ (1 : Nat) ≤ 9 := by decide
+example : parseDecimal "123456789.123456789" = some (123456789123456789, 9) := by decide
+
 -- the witnesses on which the unfixed code failed (float64 pipeline), now exact
 example : convert "123456789.123456789" "fund" "nund" = some "123456789123456789nund" := by decide
 example : convert "9999999999" "fund" "nund" = some "9999999999000000000nund" := by decide
